@@ -275,6 +275,7 @@ type resolver struct {
 	info  *types.Info
 	defs  map[types.Object]ast.Expr // local var -> its only definition (nil entry = several)
 	subst map[types.Object]string   // wrapper receiver/param substitution
+	uniq  map[types.Object]string   // disambiguated names of locals that share a name (err#2)
 }
 
 func newResolver(l *Loaded, info *types.Info, fn ast.Node) *resolver {
@@ -331,6 +332,30 @@ func newResolver(l *Loaded, info *types.Info, fn ast.Node) *resolver {
 			delete(r.defs, obj)
 		}
 	}
+	// Distinct local objects that share a name (err := ... in several scopes) get an ordinal.
+	r.uniq = map[types.Object]string{}
+	byName := map[string][]types.Object{}
+	ast.Inspect(fn, func(n ast.Node) bool {
+		if id, ok := n.(*ast.Ident); ok {
+			if obj := info.Defs[id]; obj != nil {
+				if _, isVar := obj.(*types.Var); isVar {
+					byName[id.Name] = append(byName[id.Name], obj)
+				}
+			}
+		}
+		return true
+	})
+	for name, objs := range byName {
+		if len(objs) < 2 {
+			continue
+		}
+		sort.Slice(objs, func(i, j int) bool { return objs[i].Pos() < objs[j].Pos() })
+		for i, o := range objs {
+			if i > 0 {
+				r.uniq[o] = fmt.Sprintf("%s#%d", name, i+1)
+			}
+		}
+	}
 	return r
 }
 
@@ -349,6 +374,9 @@ func (r *resolver) strDepth(e ast.Expr, depth int) string {
 				if _, isVar := obj.(*types.Var); isVar && obj.Parent() != obj.Pkg().Scope() {
 					return r.strDepth(d, depth+1)
 				}
+			}
+			if u, ok := r.uniq[obj]; ok {
+				return u
 			}
 		}
 		return v.Name
